@@ -93,11 +93,20 @@ pub struct AdtDecl {
     pub ctors: Vec<Ctor>,
     pub opaque: bool,
     pub public: bool,
+    /// explicit `@tag(n)` per constructor (empty = declaration indices)
+    pub tags: Vec<u64>,
 }
 
 impl AdtDecl {
     pub fn is_record(&self) -> bool {
         self.ctors.len() == 1 && !self.ctors[0].fields.is_empty() && self.ctors[0].fields.iter().all(|f| f.0.is_some())
+    }
+    /// Data constructor index of constructor `ctor`
+    pub fn tag(&self, ctor: usize) -> u64 {
+        self.tags.get(ctor).copied().unwrap_or(ctor as u64)
+    }
+    pub fn ctor_of_tag(&self, tag: u64) -> Option<usize> {
+        (0..self.ctors.len()).find(|c| self.tag(*c) == tag)
     }
     pub fn field_tys(&self, ctor: usize, targs: &[Ty]) -> Vec<Ty> {
         self.ctors[ctor].fields.iter().map(|(_, t)| t.subst(targs)).collect()
@@ -814,7 +823,10 @@ impl<'a> Printer<'a> {
                 (false, false) => "type",
             };
             self.out.push_str(&format!("{vis} {}{params} {{\n", a.name));
-            for c in &a.ctors {
+            for (ci, c) in a.ctors.iter().enumerate() {
+                if let Some(t) = a.tags.get(ci) {
+                    self.out.push_str(&format!("  @tag({t})\n"));
+                }
                 self.out.push_str("  ");
                 self.out.push_str(&c.name);
                 if !c.fields.is_empty() {
